@@ -19,7 +19,7 @@ def register(COMPONENTS, g):
     COMPONENTS["runcache"] = comp_runcache
 
     def comp_find(tier, seed):
-        return comp_generic("find", tier, seed, NPROC, [], "find", 900 if tier == "quick" else 3000)
+        return comp_generic("find", tier, seed, NPROC, ["-spok", os.path.join(BUILD, "spok")], "find", 900 if tier == "quick" else 3000)
     COMPONENTS["find"] = comp_find
 
     def comp_glob(tier, seed):
@@ -114,15 +114,38 @@ def register_props(PROPS, g):
                                     "a trailing '**' is anchored at a directory (a file named like the directory part matches nothing), as GlobWalk does"],
                     "trusted_extra": ["bmatcuk/doublestar GlobWalk is modelled (transliterated for the fragment), not verified"]}
     rp_rule = ("the built spok binary in a sandbox HOME/project: random spokfiles of 1-5 tasks (dependency chains, optional file dependency, docstrings, a task named default) x 0-4 commands "
-               "printing distinct markers to stdout/stderr and exiting with statuses 1..255 at any position, sequences of 1-3 invocations under {plain,-q,-j,-f,-j -f,-q -f,--show} with edits in between; "
+               "printing distinct markers to stdout/stderr and exiting with statuses 1..255 at any position, 0-3 variables (values with percent signs and printf verbs), sequences of 1-3 invocations under {plain,-q,-j,-f,-j -f,-q -f,--show,--vars,--clean (with and without a task named clean)} naming 0-2 tasks, with edits in between; "
                "exit status, the failing task/status named on stderr, the decoded --json document, emptiness of stdout, task messages and listings are compared with the model")
     rp_assume = ["what each command prints and returns is an input of the model (the embedded shell interpreter is not modelled; commands are echo/exit shapes whose result is known)",
                  "--json together with --quiet is not claimed (the two clauses of C20 contradict each other there)"]
-    PROPS["C09"] = {"components": ["report", "runcache"], "oracle": ["C09"], "decode": None,
+    def report_relevant(pid):
+        """which disagreements of the report component concern pid: C09 exit status and error, C20 what is printed, C14 invocations under --force"""
+        def rel(m):
+            diff, case, impl, model = m
+            invs = case.split("|")[-1].split(";")
+            a, b = impl.split(" ; "), model.split(" ; ")
+            if len(a) != len(b):
+                return True
+            for k, (x, y) in enumerate(zip(a, b)):
+                if x == y:
+                    continue
+                fx, fy = dict(f.split("=", 1) for f in x.split(" ", 2) if "=" in f), dict(f.split("=", 1) for f in y.split(" ", 2) if "=" in f)
+                flags = invs[k].split(":")[0] if k < len(invs) else ""
+                if pid == "C09" and (fx.get("exit") != fy.get("exit") or fx.get("err") != fy.get("err")):
+                    return True
+                if pid == "C20" and fx.get("out") != fy.get("out"):
+                    return True
+                if pid == "C14" and "f" in flags:
+                    return True
+            return False
+        return rel
+    PROPS["C14"]["components"] = ["runcache", "report"]
+    PROPS["C14"]["relevant"] = {"report": report_relevant("C14")}
+    PROPS["C09"] = {"components": ["report", "runcache"], "oracle": ["C09"], "decode": None, "relevant": {"report": report_relevant("C09")},
                     "nontrivial": ("distinct_nontrivial", "cases with at least two invocations / histories with at least two runs"),
                     "rule": rp_rule, "assumptions": rp_assume,
                     "trusted_extra": ["process exit plumbing (FollowTheProcess/cli, os.Exit) is observed, not modelled"]}
-    PROPS["C20"] = {"components": ["report"], "oracle": ["C20"], "decode": None,
+    PROPS["C20"] = {"components": ["report"], "oracle": ["C20"], "decode": None, "relevant": {"report": report_relevant("C20")},
                     "nontrivial": ("distinct_nontrivial", "cases with at least two invocations"),
                     "rule": rp_rule, "assumptions": rp_assume,
                     "trusted_extra": ["encoding/json and the tabwriter are observed through decoding/parsing the real output, not modelled"]}
